@@ -4,9 +4,10 @@
    - explicit cases ([case]): inputs of one call of the real diff function / one real replication round,
      with what the implementation returned; [check] evaluates the model on the same inputs;
    - tables: the harness ran the real diff function on EVERY pair of unique-key object sets of a small
-     scope (keys x hashes x modify indexes x last values), in a pseudo-random input order, and wrote one
-     number per case; [tab_mismatches] enumerates the same scope with its own decoder, runs the model and
-     compares the encoded outputs. *)
+     scope (keys x hashes x modify indexes x last values), in a pseudo-random input order, and encoded
+     each output as one number; [tab_digests] / [tab_outputs] enumerate the same scope with their own
+     decoder, run the model and print the encoded outputs (per-block checksums / in full) for the
+     driver to compare. *)
 From Verif Require Import Base.Prelude.
 From Verif Require Import Repl.Model.
 
@@ -82,8 +83,8 @@ Section Tab.
   Variable heqb : H -> H -> bool.
 
   Record scope := Scope {
-    sc_keys : list K; sc_hashes : list H; sc_mods : list N; sc_lasts : list N;
-    sc_salt : N; sc_ids_only : bool }.
+    sc_keys : list K; sc_hashes : list H; sc_lhashes : N;   (* the local side uses the first [sc_lhashes] hashes *)
+    sc_mods : list N; sc_lasts : list N; sc_salt : N; sc_ids_only : bool }.
 
   Notation item := (@item K H).
 
@@ -114,7 +115,7 @@ Section Tab.
   Variable sc : scope.
   Let nh := N.of_nat (List.length (sc_hashes sc)).
   Let nm := N.of_nat (List.length (sc_mods sc)).
-  Let lb := (1 + nh)%N.
+  Let lb := (1 + sc_lhashes sc)%N.
   Let rb := (1 + nh * nm)%N.
 
   Fixpoint dec_local (keys : list K) (x : N) : list item * N :=
@@ -179,23 +180,42 @@ Section Tab.
 
   Variable dfn : N -> list item -> list item -> @diffres K H.
 
-  Definition tab_check (idx out : N) : bool :=
-    let '(local, remote, last) := decode idx in
-    N.eqb (encode (dfn last local remote)) out.
+  (* the model's encoded output for case number [idx] *)
+  Definition model_out (idx : N) : N :=
+    let '(local, remote, last) := decode idx in encode (dfn last local remote).
 
-  Fixpoint tab_failing (idx : N) (outs : list N) : list N :=
-    match outs with
-    | [] => []
-    | o :: outs' => if tab_check idx o then tab_failing (N.succ idx) outs'
-                    else idx :: tab_failing (N.succ idx) outs'
+  Fixpoint model_outs (n : nat) (idx : N) : list N :=
+    match n with
+    | O => []
+    | S n' => model_out idx :: model_outs n' (N.succ idx)
     end.
+
+  (* Parsing hundreds of thousands of numerals costs Coq far more than computing them, so the table
+     files do not carry the implementation's outputs: Coq prints one checksum per block of cases
+     (polynomial hash with an odd multiplier modulo 2^128: one differing output in a block always
+     changes it) and the driver compares it with the same checksum of the implementation's outputs;
+     a differing block is then printed in full ([model_outs]) and compared number by number. *)
+  Definition digest_step (h out : N) : N :=
+    N.land (h * 1000003 + out + 1) 340282366920938463463374607431768211455.
+
+  Fixpoint digests (block k : nat) (h : N) (outs : list N) : list N :=
+    match outs with
+    | [] => match k with O => [] | _ => [h] end
+    | o :: outs' =>
+        let h' := digest_step h o in
+        if Nat.eqb (S k) block then h' :: digests block 0 0%N outs'
+        else digests block (S k) h' outs'
+    end.
+
+  Definition tab_digests (start count block : N) : list N :=
+    digests (N.to_nat block) 0 0%N (model_outs (N.to_nat count) start).
+
+  Definition tab_outputs (start count : N) : list N := model_outs (N.to_nat count) start.
 End Tab.
 
-Definition acl_tab_mismatches (sc : @scope bytes bytes) (start : N) (outs : list N) : list N :=
-  tab_failing bytes_eqb bytes_eqb sc acl_diff start outs.
-
-Definition cfg_tab_mismatches (sc : @scope ckey N) (start : N) (outs : list N) : list N :=
-  tab_failing cfg_eqb N.eqb sc cfg_diff start outs.
-
-Definition fed_tab_mismatches (sc : @scope bytes unit) (start : N) (outs : list N) : list N :=
-  tab_failing bytes_eqb (fun _ _ => true) sc fed_diff start outs.
+Definition acl_tab_digests (sc : @scope bytes bytes) := tab_digests bytes_eqb bytes_eqb sc acl_diff.
+Definition acl_tab_outputs (sc : @scope bytes bytes) := tab_outputs bytes_eqb bytes_eqb sc acl_diff.
+Definition cfg_tab_digests (sc : @scope ckey N) := tab_digests cfg_eqb N.eqb sc cfg_diff.
+Definition cfg_tab_outputs (sc : @scope ckey N) := tab_outputs cfg_eqb N.eqb sc cfg_diff.
+Definition fed_tab_digests (sc : @scope bytes unit) := tab_digests bytes_eqb (fun _ _ => true) sc fed_diff.
+Definition fed_tab_outputs (sc : @scope bytes unit) := tab_outputs bytes_eqb (fun _ _ => true) sc fed_diff.
